@@ -67,7 +67,7 @@ func init() {
 		parts := Partition(c)
 		qo := QueryOpts(c.QLookback)
 		ctx := context.Background()
-		tol := oracle.DefaultTol(Scale(c.Series))
+		tol := TolOf(c)
 
 		central, cerr := Run(ctx, NewEngine(c.Lookback, c.Opt, true), NewSession(union, c), qo, c.Query, c.Start, c.End, c.Step)
 		dist, derr := Run(ctx, NewDistributed(c, parts), NewSession(union, c), qo, c.Query, c.Start, c.End, c.Step)
@@ -85,7 +85,7 @@ func init() {
 			} else {
 				kc := *c
 				kc.Prop = "C10"
-				if id := kf.Match(&kc); id != "" {
+				if id := kf.MatchAfterFailure(&kc); id != "" {
 					return core.Verdict{Status: "known", Known: id, Features: feats}
 				}
 				return core.Verdict{Status: "violation", Features: feats, Evals: 2,
@@ -95,7 +95,7 @@ func init() {
 		if wf := oracle.WellFormed(dist, expr.Type(), oracle.Window{Start: c.Start, End: c.End, Step: c.Step}); wf != "" {
 			kc := *c
 			kc.Prop = "C10"
-			if id := kf.Match(&kc); id != "" {
+			if id := kf.MatchAfterFailure(&kc); id != "" {
 				return core.Verdict{Status: "known", Known: id, Features: feats}
 			}
 			return violation("%sill-formed distributed result: %s\n%s", hdr, wf, dist)
